@@ -354,6 +354,7 @@ Section ReadbackTop.
         cbn [norm_scalar]. change 1%nat with (length [b0]). rewrite sub_splice_same by (cbn in *; lia).
         unfold decode_ascii. now rewrite Ea.
     - (* TString *)
+      destruct (is_chararr n v) eqn:Eca; [discriminate|].
       destruct (string_validate_one n v) eqn:Ev; [discriminate|]. unfold string_validate_one in Ev.
       destruct v; try discriminate. cbn [encode_ascii] in H.
       unfold guard_string_len in Ev. destruct (Z.of_nat n - 1 <? Z.of_nat (length cs)) eqn:El; [discriminate|].
@@ -385,7 +386,7 @@ Section ReadbackTop.
     intros e v bs He Hwf Hv Hs. destruct (iter_items v) as [items|] eqn:Ei.
     - (* a sequence value stored into one element: only ByteArray[i] = b"x" succeeds *)
       pose proof (elem_ct_not_char e He) as Hk. unfold elem_store in Hs.
-      assert (Hf : forall v', match v' with PList _ | PStr _ | PArr _ _ _ | PSArr _ _ _ _ | PBytes _ | PNone | PStruct _ _ => True | _ => False end ->
+      assert (Hf : forall v', match v' with PList _ | PStr _ | PCArr _ _ _ _ | PArr _ _ _ | PSArr _ _ _ _ | PBytes _ | PNone | PStruct _ _ => True | _ => False end ->
                    cstore (fst (elem_ct e)) (snd (elem_ct e)) v' = inr bs -> False).
       { intros v' Hv' Hs'. destruct (cstore_seq_fails _ (snd (elem_ct e)) v' Hk Hv') as [x Hx]. congruence. }
       destruct v; try discriminate Ei; try (exfalso; eapply Hf; [|exact Hs]; destruct e; exact I).
